@@ -376,7 +376,7 @@ theorem linT_sound {a : Obj K} {Da : Mx K} (ha : Sound a Da) : Sound (linT a) (m
       mode := by
         rcases ha.mode with h | h
         · exact Or.inl h
-        · exact Or.inr ⟨h.inC, h.outC, h.inC⟩ }
+        · exact Or.inr ⟨h.outC, h.inC, h.outC⟩ }
   · rename_i hc
     have hR : RealK K := by
       rcases ha.mode with h | h
